@@ -15,6 +15,26 @@ def cx(x):
     return x
 
 
+_NUMBER_TYPE = [None]
+
+
+def typed(x):
+    """the same number in the Python / numpy type selected by the description's 'number_type' (None, 'int', 'numpy', 'npint'):
+    users write R=10 as often as R=10.0, and values computed with numpy arrive as numpy scalars"""
+    mode = _NUMBER_TYPE[0]
+    if mode is None or isinstance(x, bool) or not isinstance(x, (int, float, complex)):
+        return x
+    import numpy as np
+    if isinstance(x, complex):
+        return np.complex128(x) if mode in ('numpy', 'npint') else x
+    integral = float(x).is_integer() and abs(x) < 2 ** 53
+    if mode == 'int':
+        return int(x) if integral else x
+    if mode == 'npint':
+        return np.int64(int(x)) if integral else np.float64(x)
+    return np.float64(x)
+
+
 def is_zero(x):
     x = cx(x)
     return x == 0
@@ -66,25 +86,25 @@ def lib_element(b):
     from CircuitCalculator.Network import elements as elm
     c, n = b['ctor'], b['id']
     if c == 'resistor':
-        return elm.resistor(n, cx(b['R']))
+        return elm.resistor(n, typed(cx(b['R'])))
     if c == 'conductor':
-        return elm.conductor(n, cx(b['G']))
+        return elm.conductor(n, typed(cx(b['G'])))
     if c == 'impedance':
-        return elm.impedance(n, cx(b['Z']))
+        return elm.impedance(n, typed(cx(b['Z'])))
     if c == 'admittance':
-        return elm.admittance(n, cx(b['Y']))
+        return elm.admittance(n, typed(cx(b['Y'])))
     if c == 'load_v':
         return elm.load(n, P=b['P'], V_ref=b['V_ref'], Q=b.get('Q', 0))
     if c == 'load_i':
         return elm.load(n, P=b['P'], I_ref=b['I_ref'], Q=b.get('Q', 0))
     if c == 'voltage_source':
         if 'Z' in b:
-            return elm.voltage_source(n, cx(b['V']), cx(b['Z']))
-        return elm.voltage_source(n, cx(b['V']))
+            return elm.voltage_source(n, typed(cx(b['V'])), typed(cx(b['Z'])))
+        return elm.voltage_source(n, typed(cx(b['V'])))
     if c == 'current_source':
         if 'Y' in b:
-            return elm.current_source(n, cx(b['I']), cx(b['Y']))
-        return elm.current_source(n, cx(b['I']))
+            return elm.current_source(n, typed(cx(b['I'])), typed(cx(b['Y'])))
+        return elm.current_source(n, typed(cx(b['I'])))
     if c == 'open_circuit':
         return elm.open_circuit(n)
     if c == 'short_circuit':
@@ -94,7 +114,11 @@ def lib_element(b):
 
 def to_lib(desc):
     from CircuitCalculator.Network.network import Network, Branch
-    return Network([Branch(b['n1'], b['n2'], lib_element(b)) for b in desc['branches']], node_zero_label=desc['ref'])
+    _NUMBER_TYPE[0] = desc.get('number_type')
+    try:
+        return Network([Branch(b['n1'], b['n2'], lib_element(b)) for b in desc['branches']], node_zero_label=desc['ref'])
+    finally:
+        _NUMBER_TYPE[0] = None
 
 
 SOURCE_CTORS = ('voltage_source', 'current_source')
